@@ -5,7 +5,7 @@ from . import C02
 
 DECIDED = ("R1 a held message's status can become deliverable only in Sent::deliver, which is called only from Link::release and "
            "SentRef::deliver; Link::release is called only from Topology::release; R2 sends under Hold are queued with status Hold "
-           "and Link::hold marks both directions and every queued message; R3 process_deliverables removes a message only behind "
+           "and Link::hold marks both directions and every queued message; R3 take_due removes a message only behind "
            "the DeliverAfter downcast and `time <= now`, moves it into exactly one push_back, and deliver_messages hands each "
            "drained envelope over once; R4 the in-flight and deliverable queues are used order-preservingly (push_back / indexed "
            "remove / front-to-back iteration only); R5 the in-flight queue is purged only by the explicit partition API or behind a "
@@ -13,7 +13,7 @@ DECIDED = ("R1 a held message's status can become deliverable only in Sent::deli
            "receive queue has room for the un-gated FIN of a released batch (shared with C02-R4).")
 NOT_DECIDED = ("independence of other links as behaviour, the combination with one-way partitions (documented unsupported), "
                "delivery instants.")
-DECIDED += "; R10 exhaustive scans: for_pairs, Link::hold / release / process_deliverables / deliver_messages, LinkIter::deliver_all and Topology::deliver_messages visit every element (no early exit, no truncating adaptor)"
+DECIDED += "; R10 exhaustive scans: for_pairs, Link::hold / release / take_due / deliver_messages, LinkIter::deliver_all and Topology::deliver_messages visit every element (no early exit, no truncating adaptor)"
 ASSUMPTIONS = ["Link::hold always marks both directions, so 'some direction Healthy' implies 'not held'"]
 
 SENT = "turmoil::top::Link::sent"
@@ -135,10 +135,10 @@ def r2(ctx):
 
 def r3(ctx):
     R = "C08-R3"
-    ctx.rule(R, "process_deliverables: VecDeque::remove on `sent` is dominated by the DeliverAfter edge of the status match and "
+    ctx.rule(R, "take_due: VecDeque::remove on `sent` is dominated by the DeliverAfter edge of the status match and "
                 "the true edge of `time <= now`; the removed message is pushed (push_back) exactly once; a Hold message reaches no "
                 "removal; deliver_messages passes each drained envelope to receive_from_network exactly once per iteration")
-    b = ctx.body(R, "turmoil::top::Link::process_deliverables")
+    b = ctx.body(R, "turmoil::top::Link::take_due")
     if b:
         rms = [(bb, t) for bb, t in b.calls(re.compile(r"^std::collections::VecDeque::(remove|swap_remove_back|swap_remove_front|pop_front|pop_back|drain)$")) if _on_field(b, t["args"][0], SENT)]
         ves = [v for v in variant_edges(b, lambda p: place_last_field(p) == STATUS) if v[3] == "turmoil::top::DeliveryStatus"]
@@ -150,7 +150,7 @@ def r3(ctx):
             ok_da = bool(da) and dominated_mod_flags(b, bb, edges=da)
             LE = re.compile(r"PartialOrd>::le$|^std::cmp::PartialOrd::le$")
             ok_le = guarded_by_pred(b, bb, lambda o: o["k"] == "call" and callee_matches(o["t"], LE))
-            ctx.inst(R, f"process_deliverables:{m}", ok_m and ok_da and ok_le, t["s"],
+            ctx.inst(R, f"take_due:{m}", ok_m and ok_da and ok_le, t["s"],
                      "message leaves the in-flight queue only when DeliverAfter(time) and time <= now" if ok_m and ok_da and ok_le else
                      "a message can leave the in-flight queue " + ("" if ok_da else "without being DeliverAfter (held messages mature) ") +
                      ("" if ok_le else "before its time ") + ("" if ok_m else f"through `{m}` (order not preserved)"))
@@ -159,25 +159,34 @@ def r3(ctx):
                 a0 = Slicer(ctx.w).atoms(b, lt["args"][0])
                 a1 = Slicer(ctx.w).atoms(b, lt["args"][1])
                 okc = "field:turmoil::top::Link::now" in a1 and "field:turmoil::top::Link::now" not in a0 and "field:turmoil::top::DeliveryStatus::0" in a0
-                ctx.inst(R, "process_deliverables:maturity-test", okc, lt["s"], "maturity test is `time <= self.now`" if okc else
+                ctx.inst(R, "take_due:maturity-test", okc, lt["s"], "maturity test is `time <= self.now`" if okc else
                          "maturity comparison is not `deliver-after time <= link clock`")
-            pb = [x for x, t2 in b.calls("std::collections::VecDeque::push_back")]
+            pb = [x for x, t2 in b.calls(re.compile(r"^std::collections::VecDeque::push_back$|^std::vec::Vec::push$"))]
             pc = path_counts(b, t["t"], lambda x: x in pb, stop_blocks=[bb]) if t["t"] is not None else None
             # count pushes between the removal and the loop back edge
             succs = b.reachable(t["t"], removed_blocks=pb, stop=[bb])
             loops_back_without_push = any(x for x in succs if bb in b.succ(x)) or any(b.term(x)["k"] == "return" for x in succs)
-            ctx.inst(R, "process_deliverables:moved-once", not loops_back_without_push, t["s"],
+            ctx.inst(R, "take_due:moved-once", not loops_back_without_push, t["s"],
                      "the removed message is pushed onto the destination's deliverable queue on every path" if not loops_back_without_push else
                      "a removed message can be dropped without being queued for delivery")
         if not rms:
-            ctx.bad(R, "process_deliverables:remove", b.span, "no removal from the in-flight queue found")
+            ctx.bad(R, "take_due:remove", b.span, "no removal from the in-flight queue found")
+        # a host takes only what is addressed to it: the removal hangs on `sent.dst.ip() == dst`
+        for bb, t in rms:
+            okd = guarded_by_pred(b, bb, lambda o: o["k"] == "call" and re.search(r"PartialEq>::eq$|^std::cmp::PartialEq::eq$", o["t"]["f"]) and
+                                  any(a.startswith("arg:2:") for a in Slicer(ctx.w).atoms(b, o["t"]["args"][0]) | Slicer(ctx.w).atoms(b, o["t"]["args"][1])) and
+                                  "field:turmoil::top::Sent::dst" in Slicer(ctx.w).atoms(b, o["t"]["args"][0]) | Slicer(ctx.w).atoms(b, o["t"]["args"][1]))
+            ctx.inst(R, "take_due:only-own-messages", okd, t["s"], "a host is handed only the messages addressed to it" if okd else
+                     "a message can be taken off the link for a host it is not addressed to")
     d = ctx.body(R, "turmoil::top::Link::deliver_messages")
     if d:
         rf = [bb for bb, t in d.calls("turmoil::host::Host::receive_from_network")]
-        dr = [t for bb, t in d.calls(re.compile(r"^std::collections::VecDeque::drain$"))]
-        ctx.inst(R, "deliver_messages:handover", len(rf) == 1 and len(dr) == 1, d.span,
-                 "each drained envelope is handed to the host exactly once" if len(rf) == 1 and len(dr) == 1 else
-                 f"deliver_messages hands envelopes over {len(rf)} time(s) / drains {len(dr)} time(s)")
+        dr = [t for bb, t in d.calls(re.compile(r"^turmoil::top::Link::take_due$"))]
+        # the host argument of take_due is the address of the host being stepped
+        own = bool(dr) and all("field:turmoil::host::Host::addr" in Slicer(ctx.w).atoms(d, t["args"][1]) for t in dr)
+        ctx.inst(R, "deliver_messages:handover", len(rf) == 1 and len(dr) == 1 and own, d.span,
+                 "each envelope taken for the host is handed to it exactly once" if len(rf) == 1 and len(dr) == 1 and own else
+                 f"deliver_messages hands envelopes over {len(rf)} time(s) / takes due messages {len(dr)} time(s)" + ("" if own else " for another address than the host's own"))
     ctx.floor(R, 4)
 
 
@@ -264,7 +273,50 @@ def r6(ctx):
     ctx.floor(R, 6)
 
 
+def r11(ctx):
+    R = "C08-R11"
+    ctx.rule(R, "every container of in-flight messages is covered: each field of turmoil::top::Link whose type holds Sent or Envelope "
+                "values (a message that was sent and not yet handed to its host) is (a) visited by Link::hold, so that a hold reaches "
+                "every message still in flight, and (b) read where the links iterator is built (LinksIter::next), so that the iterator "
+                "shows every message in flight. A second queue that only the delivery path knows about lets messages escape a hold and "
+                "hides them from Sim::links")
+    a = ctx.w.adts.get("turmoil::top::Link")
+    if not a:
+        if ctx.strict:
+            ctx.bad(R, "anchor-missing:turmoil::top::Link", "", "struct Link not found")
+        return
+    tys = ctx.w.tys[a["crate"]]
+    inflight = [f["name"] for v in a["variants"] for f in v["fields"] if "ty" in f and re.search(r"\b(top::Sent|envelope::Envelope)\b", tys[f["ty"]]["s"])]
+
+    def touches(fid, field):
+        full = "turmoil::top::Link::" + field
+        for fb in ctx.w.family(fid):
+            for bb, i, s in fb.all_stmts():
+                r = s["r"]
+                pls = [s["p"]] + [op_place(o) for o in [r.get("o"), r.get("a"), r.get("b")] + list(r.get("ops", [])) if isinstance(o, dict)]
+                if isinstance(r.get("p"), dict):
+                    pls.append(r["p"])
+                if any(pl and full in place_fields(pl) for pl in pls):
+                    return True
+            for bb, t in fb.calls():
+                if any(op_place(x) and full in place_fields(op_place(x)) for x in t["args"]):
+                    return True
+        return False
+    users = (("hold", "turmoil::top::Link::hold", "a hold does not reach the messages queued there: they are delivered while the link is held"),
+             ("iterator", "<turmoil::top::LinksIter as std::iter::Iterator>::next", "Sim::links does not show the messages queued there although they are still in flight"))
+    for field in inflight:
+        for tag, fid, why in users:
+            b = ctx.body(R, fid)
+            if not b:
+                continue
+            ok = touches(fid, field)
+            ctx.inst(R, f"in-flight:{field}:{tag}", ok, b.span, f"Link::{field} is covered by {fid.rsplit('::', 1)[-1] if tag == 'hold' else 'the links iterator'}" if ok else
+                     f"Link::{field} holds in-flight messages but `{fid}` never looks at it: {why}")
+    ctx.floor(R, 2)
+
+
 def run(ctx):
+    r11(ctx)
     scan_rule(ctx, "C08")
     r1(ctx)
     r2(ctx)
